@@ -278,7 +278,8 @@ def run_case(case, ctx):
             (root / where).write_text(text)
             fault = f"broken-toml:{case['j']}"
             for cmd in ("lint", "lint-file", "spdx", "annotate", "download-all", "convert-dep5"):
-                judge(res, run_command(cmd, root), "broken", fault, cmd, detail=text)
+                # the diagnostic must name *that* file: a nested REUSE.toml by its own path
+                judge(res, run_command(cmd, root), "broken", fault, cmd, names=(where,), detail=text)
                 res.sigs.add(short_hash(fault, cmd))
             res.cell("broken-toml")
         elif kind in ("toml-trunc", "dep5-trunc"):
